@@ -303,6 +303,44 @@ pub fn run(ctx: &mut Ctx) {
         }
     }
 
+    // entry counts around the 16-bit limit: end records must stay consistent
+    #[derive(Clone, Debug, Serialize, Deserialize, Hash)]
+    struct Count {
+        n: u32,
+        comment: bool,
+    }
+    let counts: Vec<u32> = ctx.q(vec![65534, 65535, 65536, 65537], vec![65534, 65535, 65536, 65537, 70000, 131071, 131072]);
+    ctx.enumerate::<Count>(
+        "counts",
+        counts.len() as u64 * 2,
+        &|i| Count { n: counts[i as usize / 2], comment: i % 2 == 1 },
+        &|c: &Count, info: &mut Info| {
+            info.nontrivial = true;
+            info.label(if c.n > 65535 { "zip64-count" } else { "classic-count" });
+            let mut ops: Vec<Op> = (0..c.n)
+                .map(|i| {
+                    if i % 1000 == 7 {
+                        Op::File { name: format!("f{i}"), opts: Opts::plain(Method::Deflated), chunks: vec![Content::Bytes(i.to_le_bytes().to_vec())] }
+                    } else {
+                        Op::File { name: format!("f{i}"), opts: Opts::plain(Method::Stored), chunks: vec![] }
+                    }
+                })
+                .collect();
+            if c.comment {
+                ops.push(Op::Comment(b"count test".to_vec()));
+            }
+            let p = Program { ops };
+            match catch(|| gen::run_program(&p, false)) {
+                Err(pm) => Verdict::Fail(format!("PANIC writing {} entries: {pm}", c.n)),
+                Ok(Err(e)) => Verdict::Fail(format!("writing {} entries refused: {e}", c.n)),
+                Ok(Ok(bytes)) => {
+                    let (model, comment) = gen::model(&p);
+                    Verdict::from_result(parse::parse(&bytes[..], parse::Opts::strict()).and_then(|pp| compare_parsed(&pp, &bytes, &model, &comment)).map_err(|e| format!("{} entries: {e}", c.n)))
+                }
+            }
+        },
+    );
+
     // reject domain
     let kinds = ["name", "dirname", "symlink-name", "comment", "extra-shared", "extra-local", "extra-central"];
     let lens = [65515u32, 65516, 65534, 65535, 65536, 65537, 70000, 131072];
